@@ -209,9 +209,15 @@ def check_c01(tier):
             V.sample({"shape": ctx.case["shape"], "order": ctx.case["order"], "queries": len(answers)})
 
     replayed = drive(meta, build, judge, only=replay_filter())
+    if not os.environ.get("VERIF_REPLAY"):
+        import binlayouts
+        nb, _ = binlayouts.run(V, tier, {"c01"})
+        replayed += nb
+        V.notes["lsp_sessions"] = nb
     return V.finish(
         coverage_extra=tlc_cov(meta, replayed),
-        rule="TLC enumerates every (layout, registration order) of spec/Layouts.tla; each is replayed in memory "
+        rule="LSP tier: sampled layouts materialised on disk, textDocument/definition of the real binary at every usage. "
+             "TLC enumerates every (layout, registration order) of spec/Layouts.tla; each is replayed in memory "
              "on the real library and find_fixture_definition is asked at every column of every usage token; "
              "non-trivial = at least two definitions of the queried name compete; distinct by (layout, order, usage)",
         assumptions=["layer R (spec/Workspace.tla) is read from the property statement; no pytest available to cross-check it",
@@ -386,6 +392,11 @@ def check_c04(tier):
 
     replayed = drive(meta, build, judge, only=replay_filter())
     replayed += drive(meta_chain, build, judge, only=replay_filter())
+    if not os.environ.get("VERIF_REPLAY"):
+        import binlayouts
+        nb, _ = binlayouts.run(V, tier, {"c04"})
+        replayed += nb
+        V.notes["lsp_sessions"] = nb
     cov = tlc_cov(meta, replayed)
     cov["states"] += meta_chain["distinct"]
     cov["transitions"] += meta_chain["transitions"]
@@ -513,9 +524,16 @@ def check_c05(tier):
             V.sample({"shape": case["shape"], "order": case["order"], "views": len(avail), "rff": len(rff)})
 
     replayed = drive(meta, build, judge, only=replay_filter())
+    if not os.environ.get("VERIF_REPLAY"):
+        import binlayouts
+        nb, _ = binlayouts.run(V, tier, {"c05"})
+        replayed += nb
+        V.notes["lsp_sessions"] = nb
     return V.finish(
         coverage_extra=tlc_cov(meta, replayed),
-        rule="every (layout, order) of spec/Layouts.tla replayed; the four resolvers of the library "
+        rule="LSP tier: layouts materialised on disk, real binary: definition / hover / implementation / prepareCallHierarchy / "
+             "outgoingCalls at every usage position must denote one definition. Library tier: "
+             "every (layout, order) of spec/Layouts.tla replayed; the four resolvers of the library "
              "(find_fixture_definition, find_fixture_or_definition_at_position, get_available_fixtures, "
              "resolve_fixture_for_file) are asked about the same (file, name) and must denote one definition, "
              "the one layer R selects; non-trivial = name with >= 2 definitions",
